@@ -463,18 +463,39 @@ impl Link {
 
     // Randomly break or repair this link.
     fn rand_partition_or_repair(&mut self, global_config: &config::Link, rand: &mut dyn RngCore) {
+        // The random process only ever moves a direction between `Healthy`
+        // and `RandPartition`; explicitly partitioned or held directions are
+        // left alone.
         let do_rand = self.rand_partition(global_config.message_loss(), rand);
         match (self.state_a_b, self.state_b_a) {
             (State::Healthy, _) | (_, State::Healthy) if do_rand => {
-                self.state_a_b = State::RandPartition;
-                self.state_b_a = State::RandPartition;
+                let a_b = matches!(self.state_a_b, State::Healthy);
+                let b_a = matches!(self.state_b_a, State::Healthy);
+                if a_b {
+                    self.state_a_b = State::RandPartition;
+                }
+                if b_a {
+                    self.state_b_a = State::RandPartition;
+                }
 
-                self.sent.clear();
+                // In-flight messages of the directions that just broke are lost.
+                self.sent.retain(|sent| {
+                    if sent.src.ip() < sent.dst.ip() {
+                        !a_b
+                    } else {
+                        !b_a
+                    }
+                });
             }
             (State::RandPartition, _) | (_, State::RandPartition)
                 if self.rand_repair(global_config.message_loss(), rand) =>
             {
-                self.release();
+                if let State::RandPartition = self.state_a_b {
+                    self.state_a_b = State::Healthy;
+                }
+                if let State::RandPartition = self.state_b_a {
+                    self.state_b_a = State::Healthy;
+                }
             }
             _ => {}
         }
